@@ -142,6 +142,10 @@ func runC05(r *simrt.Run, tier Tier) Outcome {
 		return runC05Temporal(r, tier)
 	case 5:
 		return runC05Lattice(r, tier)
+	case 4:
+		if r.Bool("c05.lookalike") {
+			return runC05Keys(r)
+		}
 	}
 	o := DrawOpts(r)
 	o.NoCollect = false
